@@ -497,30 +497,59 @@ func ruleHeapDirection(c *Ctx, r *R) {
 			}
 			r.ok(good, "heap.Heap.percolateDown|swap-guard#"+itoa(n), call.Pos(), "min-heap: an element moves down only when less(child, element)")
 		})
-		// least = right only under less(right, left)
+		// least = right only under less(right, left): wherever the right child (children()#1) is selected - as an incoming
+		// value of a merge or as a helper's result - that selection sits under less(right, left)
 		okLeast := false
-		instrs(down, func(b *ssa.BasicBlock, i int, in ssa.Instruction) {
-			phi, ok := in.(*ssa.Phi)
-			if !ok || phi.Comment != "least" {
-				return
+		isRight := func(v ssa.Value) bool {
+			ex, ok := resolveVal(v).(*ssa.Extract)
+			if !ok || ex.Index != 1 {
+				return false
 			}
-			// edges: left (default) and right (from the block guarded by less(right,left))
-			for k, e := range phi.Edges {
-				if !strings.Contains(path(e), "#1") {
-					continue
-				}
-				pred := b.Preds[k]
-				for _, g := range append(guardsOf(pred), guardsOfSelf(pred)...) {
-					if v, val := g.boolVal(); val {
+			call, ok := ex.Tuple.(*ssa.Call)
+			return ok && staticCallee(&call.Call) != nil && fname(staticCallee(&call.Call)) == "children"
+		}
+		lessRightLeft := func(gs []guard) bool {
+			for _, g := range gs {
+				for _, g2 := range expandGuard(g, 0) {
+					if v, val := g2.boolVal(); val {
 						if lc, ok := v.(*ssa.Call); ok {
 							if cal := staticCallee(&lc.Call); cal != nil && fname(cal) == "less" && strings.Contains(path(lc.Call.Args[1]), "#1") && strings.Contains(path(lc.Call.Args[2]), "#0") {
-								okLeast = true
+								return true
 							}
 						}
 					}
 				}
 			}
-		})
+			return false
+		}
+		nSel, badSel := 0, 0
+		for _, fr := range deepFrames(down, 2) {
+			instrs(fr.f, func(b *ssa.BasicBlock, i int, in ssa.Instruction) {
+				switch x := in.(type) {
+				case *ssa.Phi:
+					for k, e := range x.Edges {
+						if !isRight(e) {
+							continue
+						}
+						nSel++
+						pred := b.Preds[k]
+						if !lessRightLeft(append(append(guardsOf(pred), guardsOfSelf(pred)...), edgeGuard(pred, b)...)) {
+							badSel++
+						}
+					}
+				case *ssa.Return:
+					for _, rv := range x.Results {
+						if isRight(rv) && isIntType(rv.Type()) {
+							nSel++
+							if !lessRightLeft(append(guardsOf(b), guardsOfSelf(b)...)) {
+								badSel++
+							}
+						}
+					}
+				}
+			})
+		}
+		okLeast = nSel > 0 && badSel == 0
 		r.ok(okLeast, "heap.Heap.percolateDown|least-child", down.Pos(), "the right child is chosen only under less(right, left)")
 	} else {
 		r.undecided("heap.Heap.percolateDown|missing", token.NoPos, "anchor not found")
@@ -680,11 +709,22 @@ func rulePQMap(c *Ctx, r *R) {
 		// Item(idx).P under ok, zero otherwise
 		good := false
 		instrs(fn, func(b *ssa.BasicBlock, i int, in ssa.Instruction) {
-			if ret, ok := in.(*ssa.Return); ok && strings.Contains(path(ret.Results[0]), "Item") && strings.HasSuffix(path(ret.Results[0]), ".P") {
-				for _, g := range guardsOf(b) {
-					if v, val := g.boolVal(); val {
-						if e, ok := v.(*ssa.Extract); ok && e.Index == 1 {
-							good = true
+			if ret, ok := in.(*ssa.Return); ok {
+				// the priority returned is Item(idx).P, read where the key is known to be present (the read may feed a
+				// single-exit result variable)
+				for _, lf := range valueLeaves(ret.Results[0], nil, 0) {
+					if !(strings.Contains(path(lf.v), "Item") && strings.HasSuffix(path(lf.v), ".P")) {
+						continue
+					}
+					at := b
+					if li, ok := lf.v.(ssa.Instruction); ok {
+						at = li.Block()
+					}
+					for _, g := range guardsOf(at) {
+						if v, val := g.boolVal(); val {
+							if e, ok := v.(*ssa.Extract); ok && e.Index == 1 {
+								good = true
+							}
 						}
 					}
 				}
